@@ -6,5 +6,5 @@ From Mos Require Import model.Utf model.Nom Gen.ParserTables model.Parser model.
 
 Extraction "../extract/gen/c05.ml"
   Z.add Z.mul Z.sub Z.opp Z.div Z.modulo Z.ltb Z.eqb Z.of_N Z.to_N Z.of_nat Z.to_nat N.add N.leb
-  parse render show eof_rest skeleton blen disp_BinaryOp disp_NumberType disp_AddressModifier disp_IndexRegister
+  parse render show eof_rest skeleton max_nesting_depth blen disp_BinaryOp disp_NumberType disp_AddressModifier disp_IndexRegister
   disp_DataSize disp_VariableType disp_TextEncoding.
